@@ -10,17 +10,17 @@ from .common import AT4_API, AT5_API, HEARTBEAT, SOCKET, fn_of, loop_time_call
 
 LEVEL = "other"
 EXPLANATION = (
-    "Static analysis of comms/heartbeat.py and the heartbeat wiring of both api.py: R1 folded constants (interval 300.0, default timeout interval"
-    " + 30.0 = 330.0, not overridden by either API); R2 the unconditional heartbeat loop sleeps config.interval and sends the configured message "
-    "under is_connected with the 1 s policy in every iteration; R3 deadline-loop idiom extraction: the deadline is armed with config.timeout at "
-    "the top of every outer iteration, pushed to loop.time() + config.timeout after each response, the event is cleared, the TimeoutError handler"
-    " resets under is_connected and the loop continues; R4 only a dead link: the handler is the only reset in the module, the event is set only "
-    "under response_match, both matchers accept exactly ExtendedMessage carrying sub-id 0xFF30; R5 start() subscribes the response listener on "
-    "every (re)start and stop() removes it, start() creates both loops and is awaited on every path that reaches the CONNECTED state in both "
-    "generations. Arrival-time arithmetic is not decided."
+    'Static analysis of comms/heartbeat.py and the heartbeat wiring of both api.py: R1 folded constants (interval 300.0, default timeout interval + 30.0 = '
+    '330.0, not overridden by either API); R2 the unconditional heartbeat loop sleeps config.interval and sends the configured message under is_connected '
+    'with the 1 s policy in every iteration; R3 deadline-loop idiom extraction: the deadline is armed with config.timeout at the top of every outer '
+    'iteration, pushed to loop.time() + config.timeout after each response, the event is cleared, the TimeoutError handler resets under is_connected and '
+    'the loop continues; R4 only a dead link: the handler is the only reset in the module, the event is set only under response_match, both matchers accept '
+    'exactly ExtendedMessage carrying sub-id 0xFF30; R5 start() subscribes the response listener on every (re)start and stop() removes it, start() creates '
+    'both loops and is awaited on every path that reaches the CONNECTED state in both generations. Arrival-time arithmetic is not decided. R6 the reset the '
+    'watchdog asks for really ends in a new connection attempt (C07.R2 + C07.R3 re-evaluated).'
 )
 ASSUMPTIONS = ["asyncio.timeout(delay)/Timeout.reschedule(when) semantics as documented (delay None = no deadline)", "loop.time() is the clock asyncio.timeout uses"]
-FLOORS = {"C08.R1": 5, "C08.R2": 4, "C08.R3": 7, "C08.R4": 5, "C08.R5": 5}
+FLOORS = {"C08.R1": 5, "C08.R2": 4, "C08.R3": 7, "C08.R4": 5, "C08.R5": 5, "C08.R6": 1}
 
 
 def run(ctx):
